@@ -86,7 +86,19 @@ def mutants(groups):
 
 
 def sh(cmd, cwd=None, timeout=1800):
-    return subprocess.run(cmd, shell=True, cwd=cwd, stdout=subprocess.PIPE, stderr=subprocess.STDOUT, text=True, timeout=timeout)
+    import signal
+    env = dict(os.environ, VERIF_COMPILE_WATCHDOG="300")
+    p = subprocess.Popen(cmd, shell=True, cwd=cwd, stdout=subprocess.PIPE, stderr=subprocess.STDOUT, text=True, start_new_session=True, env=env)
+    try:
+        out, _ = p.communicate(timeout=timeout)
+    except subprocess.TimeoutExpired:
+        try:
+            os.killpg(p.pid, signal.SIGKILL)
+        except OSError:
+            pass
+        p.communicate()
+        return subprocess.CompletedProcess(cmd, 124, "TIMEOUT", None)
+    return subprocess.CompletedProcess(cmd, p.returncode, out, None)
 
 
 def apply(m):
@@ -150,6 +162,9 @@ def run(args):
                         break
                     elif r.returncode == 2:
                         rec["checks"][chk] = "inconclusive"
+                        if "compiler did not terminate" in r.stdout:
+                            rec["status"] = "compiler-hang"
+                            break
                         if "build failed" in r.stdout or "failed to compile" in r.stdout:
                             rec["status"] = "harness-build-failure"
                             break
@@ -166,7 +181,7 @@ def run(args):
 def triage(path):
     recs = [json.loads(l) for l in open(path)]
     surv = [r for r in recs if r["status"] == "survived"]
-    print(f"{len(recs)} mutants: " + ", ".join(f"{k}={sum(1 for r in recs if r['status'] == k)}" for k in ["caught", "survived", "stillborn", "harness-build-failure"]))
+    print(f"{len(recs)} mutants: " + ", ".join(f"{k}={sum(1 for r in recs if r['status'] == k)}" for k in ["caught", "survived", "stillborn", "harness-build-failure", "compiler-hang"]))
     if sh("git diff --quiet", cwd=REPO).returncode != 0:
         print("repo dirty"); return 2
     allm = {(m["file"], m["line"], m["op"], m["k"]): m for m in mutants(["core", "macros", "bevy"])}
